@@ -31,51 +31,79 @@ func init() {
 	add("C03", "C03.errs (a consensus function that tests the error of a store read or of another consensus function returns an error on the failing edge, or first asks which error it is: a transient store failure is never turned into — and memoised as — a consensus answer; shared with C01.errs).", as1(consensusErrRule, "C03.errs"))
 	add("C01", "C01.errs (see C03.errs).", as1(consensusErrRule, "C01.errs"))
 	add("C02", "C02.reset (Hashgraph.Reset stores the anchor block and resets the store from the frame on every successful reset, unconditionally: the last block index the next block is numbered from is re-established whatever the database still holds from the node's previous life; shared with C13.reset).", sharedAs(c13reset, map[string]string{"C13.reset": "C02.reset"}))
+	add("C11", "C11.coords (every successful InsertEvent computes the event's coordinates and updates its ancestors' first descendants — replayed events included: what an interrupted insertion left in the database is recomputed, not trusted; shared with C01.coords), C11.samepath (no branch on the insertion / consensus path depends on a Hashgraph field set by Bootstrap: there is no replay mode above the store).", as1(coordsRule, "C11.coords"), as1(samePathRule, "C11.samepath"))
+	add("C01", "C01.coords (see C11.coords: see / strongly-see read only the coordinates InsertEvent computes).", as1(coordsRule, "C01.coords"))
+	tot := func(rule string, funcs [][3]string, min int) ruleFunc {
+		return func(p *Prog, r *Report) { totalLoopsRule(p, r, rule, funcs, min) }
+	}
+	add("C15", "C15.elementwise (the wire conversions — WireEvent.BlockSignatures, Event.WireBlockSignatures, ToWire, ReadWireInfo — and the frame / block builders convert element by element without dropping any: a filtered element changes the hash on the receiving side).", tot("C15.elementwise", conversionFuncs, 3))
+	add("C04", "C04.everyevent (GetFrame turns every received event of the round into a frame event, NewBlockFromFrame every frame event's payload into the block, SortedFrameEvents every root and frame event into the list a reset node inserts: no filter, no early exit; shared with C13.everyevent).", tot("C04.everyevent", [][3]string{{HG, "Hashgraph", "GetFrame"}, {HG, "", "NewBlockFromFrame"}, {HG, "Frame", "SortedFrameEvents"}}, 3))
+	add("C13", "C13.everyevent (see C04.everyevent).", tot("C13.everyevent", [][3]string{{HG, "Hashgraph", "GetFrame"}, {HG, "Frame", "SortedFrameEvents"}}, 2))
+	add("C18", "C18.everywitness (the loop that collects the famous witnesses' timestamps in GetFrame adds one per famous witness: no filter — a filter on the values lets a node-local condition, e.g. its own clock, decide whose time counts; see C04.everyevent), C18.local (the functions that compute the frame read no process-local state such as the local clock; see C03.local).", tot("C18.everywitness", [][3]string{{HG, "Hashgraph", "GetFrame"}}, 2), func(p *Prog, r *Report) { localStateRule(p, r, "C18.local", frameFuncs, 10) })
+	add("C14", "C14.accept (nothing of a fast-forward response is adopted unless CheckBlock accepted its block: no shortcut around the signature count; see C12.accept).", sharedAs(c12accept, map[string]string{"C12.accept": "C14.accept"}))
 	add("C01", "C01.mapcut (see C03.mapcut).", as(mapCutRule, "C01.mapcut", consensusFuncs))
 	add("C13", "C13.mapcut (see C03.mapcut, for the functions that build a frame).", as(mapCutRule, "C13.mapcut", frameFuncs))
 }
 
 /* ---------- round g: rules found with the mechanical mutation scan (mutscan.py) and seed round g ---------- */
 
-// errorExit: the edge b->s leaves towards a return whose error result cannot be nil (an error exit of the function).
+// errorExit: every feasible path from the edge b->s (jump threading over the result temporaries of inlined helpers)
+// ends in a return whose error result cannot be nil: an error exit of the function.
 func errorExit(b, s *ssa.BasicBlock) bool {
-	cur, prev := s, b
-	for i := 0; i < 4; i++ {
-		if len(cur.Instrs) == 0 {
+	ok, sawRet, n := true, false, 0
+	forwardFromEdge(b, s, func(cur *ssa.BasicBlock) bool {
+		n++
+		if !ok || n > 40 || len(cur.Instrs) == 0 {
+			ok = false
 			return false
 		}
-		if ret, ok := cur.Instrs[len(cur.Instrs)-1].(*ssa.Return); ok {
-			n := len(ret.Results)
-			if n == 0 || !isErrorType(ret.Results[n-1].Type()) {
-				return false
+		last := cur.Instrs[len(cur.Instrs)-1]
+		if _, isPanic := last.(*ssa.Panic); isPanic {
+			return false
+		}
+		ret, isRet := last.(*ssa.Return)
+		if !isRet {
+			return true
+		}
+		sawRet = true
+		nr := len(ret.Results)
+		if nr == 0 || !isErrorType(ret.Results[nr-1].Type()) {
+			ok = false
+			return false
+		}
+		for _, rp := range retPointsOf(ret, nr-1) {
+			v := rp.val
+			if neverNilErr(v, 3) {
+				continue
 			}
-			for _, rp := range retPointsOf(ret, n-1) {
-				if rp.pred != nil && rp.pred != prev && cur == s {
-					continue // another edge into the returning block
-				}
-				v := rp.val
-				if neverNilErr(v, 3) {
+			if isNil, known := knownNilOnEdge(cur, v); known && !isNil {
+				continue
+			}
+			if rp.pred != nil {
+				if isNil, known := knownNilOnEdge(rp.pred, v); known && !isNil {
 					continue
 				}
-				if isNil, known := knownNilOnEdge(cur, v); known && !isNil {
-					continue
-				}
-				// the test sits on the edge b->s itself
-				if l, ok := edgeLit(prev, cur); ok {
-					if x, isNil, ok := nilTest(l); ok && !isNil && (x == v || unwrap(x) == unwrap(v)) {
+				if c, isC := v.(*ssa.Const); isC && c.Value == nil && rp.pred != b {
+					// a nil operand on another edge into the returning block: is that edge on our paths?
+					// (conservative: only edges from blocks we did not come through are ignored when the
+					// returning block is the direct target)
+					if cur == s {
 						continue
 					}
 				}
-				return false
 			}
-			return true
+			if cur == s {
+				if l, lok := edgeLit(b, s); lok {
+					if x, isNil, tok := nilTest(l); tok && !isNil && (x == v || unwrap(x) == unwrap(v)) {
+						continue
+					}
+				}
+			}
+			ok = false
 		}
-		if len(cur.Succs) != 1 {
-			return false
-		}
-		prev, cur = cur, cur.Succs[0]
-	}
-	return false
+		return false
+	})
+	return ok && sawRet
 }
 
 // mapCutRule: a consensus function that ranges over a map and ACCUMULATES (adds to a map, appends to a slice, stores a
@@ -432,4 +460,312 @@ func absentIsAnAnswer(f *ssa.Function, callee *types.Func, c *ssa.Call) string {
 		return "a joiner's first event can have a round far below the rounds still cached (comment in the code): the search ends"
 	}
 	return ""
+}
+
+/* ---------- C11.coords / C11.samepath (seed C11g) ---------- */
+
+// coordsRule: every successful InsertEvent has computed the event's coordinates (lastAncestors / firstDescendants) and
+// pushed the event into its ancestors' firstDescendants — for every event, whatever its origin. The ancestry relations
+// (see, strongly-see) read nothing else; coordinates taken over from elsewhere (a decoded database record, a wire form)
+// are whatever a previous, possibly interrupted, insertion left behind.
+func coordsRule(p *Prog, r *Report, rule string) {
+	r.Rule(rule, 2, "InsertEvent computes the event's coordinates and updates its ancestors' first descendants on every successful insertion")
+	ins := p.Func(HG, "Hashgraph", "InsertEvent")
+	if ins == nil {
+		r.Anchor(rule, "hashgraph.(*Hashgraph).InsertEvent")
+		return
+	}
+	succ := p.succRets(ins, errNil, 0)
+	for _, m := range []string{"initEventCoordinates", "updateAncestorFirstDescendant"} {
+		var sites []ssa.CallInstruction
+		for _, c := range callsIn(ins, named(HG+".Hashgraph."+m)) {
+			if a := lastArg(c); a != nil && flowsFrom(a, func(v ssa.Value) bool { return isParamOfType(v, "Event") }) {
+				sites = append(sites, c)
+			}
+		}
+		ok, why := len(sites) > 0 && len(succ) > 0, ""
+		if len(sites) == 0 {
+			why = "InsertEvent does not call " + m + " on the event being inserted"
+		}
+		for _, rp := range succ {
+			dom := false
+			for _, c := range sites {
+				if dominates(c, rp.ret) {
+					dom = true
+				}
+			}
+			if !dom && len(sites) > 0 {
+				ok, why = false, "a success return of InsertEvent ("+p.ipos(rp.ret)+") is reached without "+m+"(event): the call is conditional, so some events keep coordinates computed elsewhere"
+			}
+		}
+		r.Check(ok, rule, "InsertEvent:always-"+m, p.pos(ins.Pos()), fnName(ins), m+"(event) on every successful insertion", why)
+	}
+}
+
+// samePathRule: Bootstrap replays the database through the very code path live events take. No field of Hashgraph that
+// Bootstrap sets (a "replaying" flag) is branched on by the insertion / consensus path: a replayed event is treated as a
+// new one. (The store's maintenance mode — which only suppresses writes to the database being read — is a store field.)
+func samePathRule(p *Prog, r *Report, rule string) {
+	r.Rule(rule, 1, "nothing on the insertion / consensus path branches on a Hashgraph field set by Bootstrap (no replay mode)")
+	bs := p.Func(HG, "Hashgraph", "Bootstrap")
+	iar := p.Func(HG, "Hashgraph", "InsertEventAndRunConsensus")
+	if bs == nil || iar == nil {
+		r.Anchor(rule, "hashgraph.(*Hashgraph).Bootstrap / InsertEventAndRunConsensus")
+		return
+	}
+	hgT := p.Type(HG, "Hashgraph")
+	if hgT == nil {
+		r.Anchor(rule, "hashgraph.Hashgraph")
+		return
+	}
+	// fields of Hashgraph stored to by Bootstrap itself (its closures and new helpers included), not through the insertion path
+	path := p.reach([]*ssa.Function{iar}, func(f *ssa.Function) bool { return !inModule(f) || isStoreImpl(f) })
+	own := p.reach([]*ssa.Function{bs}, func(f *ssa.Function) bool { return !inModule(f) || isStoreImpl(f) || path[f] })
+	written := map[*types.Var]ssa.Instruction{}
+	st, ok := hgT.Underlying().(*types.Struct)
+	if !ok {
+		r.Anchor(rule, "hashgraph.Hashgraph (struct)")
+		return
+	}
+	for i := 0; i < st.NumFields(); i++ {
+		fv := st.Field(i)
+		for _, w := range p.writersOf(fv) {
+			if own[w.Fn] && !path[w.Fn] && !w.Fresh {
+				written[fv] = w.Instr
+			}
+		}
+	}
+	n := 0
+	var fs []*ssa.Function
+	for f := range path {
+		if inModule(f) && f.Synthetic == "" && !isStoreImpl(f) {
+			fs = append(fs, f)
+		}
+	}
+	sort.Slice(fs, func(i, j int) bool { return fs[i].String() < fs[j].String() })
+	bad := ""
+	for _, f := range fs {
+		for _, b := range f.Blocks {
+			if len(b.Instrs) == 0 {
+				continue
+			}
+			iff, isIf := b.Instrs[len(b.Instrs)-1].(*ssa.If)
+			if !isIf {
+				continue
+			}
+			n++
+			for fv, w := range written {
+				if depOnFieldVar(iff.Cond, fv) {
+					bad = fnName(f) + " branches at " + p.ipos(iff) + " on Hashgraph." + fv.Name() + ", which Bootstrap sets at " + p.ipos(w)
+				}
+			}
+		}
+	}
+	var wn []string
+	for fv := range written {
+		wn = append(wn, fv.Name())
+	}
+	sort.Strings(wn)
+	r.Check(bad == "", rule, "Bootstrap:no-replay-mode-on-the-insertion-path", p.pos(bs.Pos()), fnName(bs), "replayed events take the live path", bad+": events read back from the database are then inserted differently from the way they were inserted the first time, so what an interrupted insertion left on disk is trusted instead of recomputed")
+	r.Note("%s: Hashgraph fields written by Bootstrap outside the insertion path: [%s]; %d branches examined in %d functions reachable from InsertEventAndRunConsensus", rule, strings.Join(wn, " "), n, len(fs))
+}
+
+/* ---------- element-wise conversions are total (seeds C04g, C15g) ---------- */
+
+// accumulators: the instructions of loop lp that add one element per iteration to a result that outlives the loop:
+// an append whose result is carried around the loop (or stored into a variable that is), an element store into a slice
+// allocated before the loop.
+func accumulators(lp *loopInfo) []ssa.Instruction {
+	var res []ssa.Instruction
+	inLoop := func(v ssa.Value) bool {
+		in, ok := v.(ssa.Instruction)
+		return ok && in.Block() != nil && lp.body[in.Block()]
+	}
+	var blocks []*ssa.BasicBlock
+	for b := range lp.body {
+		blocks = append(blocks, b)
+	}
+	sort.Slice(blocks, func(i, j int) bool { return blocks[i].Index < blocks[j].Index })
+	for _, b := range blocks {
+		for _, in := range b.Instrs {
+			switch x := in.(type) {
+			case *ssa.Call:
+				bi, isB := x.Call.Value.(*ssa.Builtin)
+				if !isB || bi.Name() != "append" || x.Referrers() == nil {
+					continue
+				}
+				carried := false
+				var follow func(v ssa.Value, depth int)
+				follow = func(v ssa.Value, depth int) {
+					refs := v.Referrers()
+					if refs == nil || depth > 3 {
+						return
+					}
+					for _, u := range *refs {
+						switch y := u.(type) {
+						case *ssa.Phi:
+							if y.Block() == lp.head {
+								carried = true
+							} else if lp.body[y.Block()] {
+								follow(y, depth+1)
+							}
+						case *ssa.Store:
+							if y.Val == v && !inLoop(y.Addr) {
+								carried = true
+							} else if y.Val == v {
+								if al, isAl := y.Addr.(*ssa.Alloc); isAl && !lp.body[al.Block()] {
+									carried = true
+								}
+							}
+						}
+					}
+				}
+				follow(x, 0)
+				if carried {
+					res = append(res, in)
+				}
+			case *ssa.Store:
+				if ia, isIA := x.Addr.(*ssa.IndexAddr); isIA && !inLoop(ia.X) {
+					if _, isSl := ia.X.Type().Underlying().(*types.Slice); isSl {
+						res = append(res, in)
+					}
+				}
+			}
+		}
+	}
+	return res
+}
+
+// skippedIteration: an iteration of lp can complete (return to the loop head), or the loop can be left without an error,
+// without executing any of the accumulating instructions acc. Returns the position of the offending edge, "" if none.
+func (p *Prog) skippedIteration(lp *loopInfo, acc []ssa.Instruction) string {
+	accBlock := map[*ssa.BasicBlock]bool{}
+	for _, a := range acc {
+		accBlock[a.Block()] = true
+	}
+	bad := ""
+	for _, s := range lp.head.Succs {
+		if !lp.body[s] {
+			continue
+		}
+		if accBlock[lp.head] {
+			return ""
+		}
+		prev := map[*ssa.BasicBlock]*ssa.BasicBlock{}
+		forwardFromEdge(lp.head, s, func(cur *ssa.BasicBlock) bool {
+			if bad != "" || accBlock[cur] {
+				return false
+			}
+			if cur == lp.head {
+				bad = "an iteration reaches the next one without it"
+				return false
+			}
+			if !lp.body[cur] {
+				// left the loop: fine if this is an error exit
+				ok := false
+				for _, pr := range cur.Preds {
+					if lp.body[pr] && errorExit(pr, cur) {
+						ok = true
+					}
+				}
+				if !ok {
+					if len(cur.Instrs) > 0 {
+						if _, isPanic := cur.Instrs[len(cur.Instrs)-1].(*ssa.Panic); isPanic {
+							return false
+						}
+					}
+					bad = "the loop is left at " + p.ipos(cur.Instrs[0]) + " without it and without an error"
+				}
+				return false
+			}
+			_ = prev
+			return true
+		})
+	}
+	return bad
+}
+
+// totalLoopsRule: the listed functions convert one representation into another element by element (wire form <-> event,
+// frame <- received events, block <- frame events, frame -> sorted events). Every element of the source yields an element
+// of the result: a loop that accumulates the result adds to it on every iteration — no `continue`, no filter, no early
+// `break` — unless it leaves through an error. A dropped element changes the hash on the other side (C15), removes an
+// event's payload from the block (C04) or an event from the frame a reset node starts from (C13).
+func totalLoopsRule(p *Prog, r *Report, rule string, funcs [][3]string, min int) {
+	r.Rule(rule, min, "element-wise conversions are total: every iteration of a loop that builds the converted value adds its element (error exits apart)")
+	n := 0
+	for _, fn := range funcs {
+		f := p.Func(fn[0], fn[1], fn[2])
+		if f == nil {
+			r.Anchor(rule, fn[1]+"."+fn[2])
+			continue
+		}
+		for _, g := range withAnon(f) {
+			loops := naturalLoops(g)
+			for _, lp := range loops {
+				// accumulators that belong to this loop (innermost)
+				var acc []ssa.Instruction
+				for _, a := range accumulators(lp) {
+					if il := innermostLoop(loops, a.Block()); il != nil && il.head == lp.head {
+						acc = append(acc, a)
+					}
+				}
+				if len(acc) == 0 {
+					continue
+				}
+				// group by destination: each accumulating site must be reached (sites that fill different results are
+				// independent obligations)
+				for _, a := range acc {
+					n++
+					// a payload getter whose emptiness is tested (`if len(txs) > 0 { append }`) changes nothing
+					if guardedOnlyByOwnLength(p, g, lp, a) {
+						continue
+					}
+					bad := p.skippedIteration(lp, []ssa.Instruction{a})
+					r.Check(bad == "", rule, fn[2]+":every-element@"+p.ipos(a), p.ipos(a), fnName(g), "one element per source element",
+						"the element added at "+p.ipos(a)+" is not added on every iteration: "+bad+" — a source element is dropped from the converted value")
+				}
+			}
+		}
+	}
+	r.Note("%s: %d accumulating sites in loops of %d conversion functions", rule, n, len(funcs))
+}
+
+// guardedOnlyByOwnLength: the accumulating instruction appends a slice x... and the only loop-local conditions on the
+// way are tests of len(x) (appending an empty slice is a no-op).
+func guardedOnlyByOwnLength(p *Prog, g *ssa.Function, lp *loopInfo, a ssa.Instruction) bool {
+	c, ok := a.(*ssa.Call)
+	if !ok || len(c.Call.Args) < 2 {
+		return false
+	}
+	src := c.Call.Args[1]
+	if sl, isSl := src.(*ssa.Slice); isSl {
+		if _, isAl := sl.X.(*ssa.Alloc); isAl {
+			return false // append(s, elem): the variadic argument packed into a fresh array
+		}
+	}
+	any := false
+	for _, l := range p.Facts(g).At(a.Block()) {
+		in, isIn := l.V.(ssa.Instruction)
+		if !isIn || !lp.body[in.Block()] || in.Block() == lp.head {
+			continue
+		}
+		any = true
+		okLen := false
+		if bo, isB := l.V.(*ssa.BinOp); isB {
+			for _, side := range []ssa.Value{bo.X, bo.Y} {
+				if s, isLen := isLenOf(side); isLen && (s == src || unwrap(s) == unwrap(src) || commonOrigin(s, src)) {
+					okLen = true
+				}
+			}
+		}
+		if !okLen {
+			return false
+		}
+	}
+	return any
+}
+
+var conversionFuncs = [][3]string{
+	{HG, "WireEvent", "BlockSignatures"}, {HG, "Event", "WireBlockSignatures"}, {HG, "Event", "ToWire"}, {HG, "Hashgraph", "ReadWireInfo"},
+	{HG, "", "NewBlockFromFrame"}, {HG, "Frame", "SortedFrameEvents"},
 }
